@@ -291,9 +291,27 @@ steps:
 		if h.With {
 			// Value.RefineWith: "equivalent to passing the return value of
 			// Value.Refine to the first callback ... and then calling NewValue"
-			stop := false
+			stop, ran := false, false
 			var perr string
-			nv, perr = refineWith(v, func(b *cty.RefinementBuilder) { stop = applyGroup(b) })
+			nv, perr = refineWith(v, func(b *cty.RefinementBuilder) { ran = true; stop = applyGroup(b) })
+			if !ran && perr == "" {
+				// the callbacks were not run: what RefineWith returned must
+				// still be what the documented equivalent (the builder chain
+				// followed by NewValue) gives, a rejection included
+				c.Label("refinewith:callbacks-not-run")
+				b := v.Refine()
+				stop = applyGroup(b)
+				if !stop {
+					if dead {
+						add(facet.Failf("accepted-contradiction", "%s: RefineWith returned %#v without running its callbacks, but the equivalent builder chain rejects these calls", describeStart(h.Start), nv).With("reason", "refinewith-skipped"))
+						break steps
+					}
+					if want, wf := newValue(b); wf == nil && !want.RawEquals(nv) {
+						add(facet.Failf("refinewith-differs", "%s: RefineWith returned %#v without running its callbacks, the equivalent builder chain gives %#v", describeStart(h.Start), nv, want))
+						break steps
+					}
+				}
+			}
 			if stop {
 				break steps
 			}
